@@ -52,8 +52,12 @@ IpOps == LET ks == SetToSeq(KeysIn(Top)) IN
 \* scenario "pend": full top bucket (2 disconnected first, the third node already in s1) and an s1 candidate pending
 PendOps == LET ks == SetToSeq(KeysIn(Top))  f == FillOps(2, CFG.K, "n") IN
    [i \in 1..Len(f) |-> IF i = 3 THEN [f[i] EXCEPT !.sub = "s1"] ELSE f[i]] \o <<Iou(ks[CFG.K + 1], "s1", "C", "O")>>
-Init == \E pat \in (IF PREFILL = 0 THEN {0} ELSE IF PREFILL >= 98 THEN {PREFILL} ELSE {0, 1, 3, PREFILL}) :
-          /\ script = (IF PREFILL = 0 THEN <<>> ELSE IF PREFILL = 99 THEN IpOps ELSE IF PREFILL = 98 THEN PendOps ELSE FillOps(pat, PREFILL, "n"))
+\* scenario "head": full top bucket whose only disconnected node is the head, a connected candidate pending, then the head is
+\* removed and the free slot taken by another connected node while the candidate waits
+HeadOps == LET ks == SetToSeq(KeysIn(Top)) IN
+   FillOps(1, CFG.K, "n") \o <<Iou(ks[CFG.K + 1], "n", "C", "O"), [o |-> "rm", k |-> ks[1]], Iou(ks[CFG.K + 2], "n", "C", "O")>>
+Init == \E pat \in (IF PREFILL = 0 THEN {0} ELSE IF PREFILL >= 97 THEN {PREFILL} ELSE {0, 1, 3, PREFILL}) :
+          /\ script = (IF PREFILL = 0 THEN <<>> ELSE IF PREFILL = 99 THEN IpOps ELSE IF PREFILL = 98 THEN PendOps ELSE IF PREFILL = 97 THEN HeadOps ELSE FillOps(pat, PREFILL, "n"))
           /\ tb = EmptyTable(CFG) /\ stamp = <<>>
           /\ lastop = Reset /\ lastret = "ok" /\ hist = <<Reset>> /\ res = [tb |-> <<>>, ret |-> "ok"]
 \* (primed variables are bound in sequence so that Step is evaluated once per successor: TLC
@@ -99,5 +103,12 @@ GoalBucketFilter    == ~(lastret = "Failed(BucketFilter)")
 GoalApplyFilterDrop == ~(\E b \in Buckets(CFG) : script = <<>> /\ lastop.o = "iter" /\ FullB(b) /\ ~tb[b].pend.on
                            /\ SubCount(BVals(tb[b]), "s1") = CFG.bl /\ tb[b].nodes[1].val.sub = "n" /\ Len(hist) > CFG.K + 4
                            /\ \A i \in 1..Len(tb[b].nodes) : tb[b].nodes[i].key # SetToSeq(KeysIn(Top))[CFG.K + 1])
+\* the candidate's time has come but the bucket has meanwhile become all-connected (its disconnected head was removed and the
+\* slot refilled): the candidate is discarded, no connected node is evicted
+GoalPendingVsConnectedHead == ~(\E b \in Buckets(CFG) : script = <<>> /\ lastop.o = "iter" /\ FullB(b) /\ ~tb[b].pend.on
+                           /\ (\A i \in 1..Len(tb[b].nodes) : tb[b].nodes[i].st = "C")
+                           /\ (\E i \in 1..Len(hist) : hist[i].o = "rm") /\ hist[Len(hist) - 1].o = "tick"
+                           /\ \E k \in KeysIn(b) : (\E i \in 1..Len(hist) : hist[i].o = "iou" /\ hist[i].k = k) /\ (\A i \in 1..Len(hist) : ~(hist[i].o = "rm" /\ hist[i].k = k))
+                                                   /\ \A i \in 1..Len(tb[b].nodes) : tb[b].nodes[i].key # k)
 GoalBucket0Closest  == ~(lastop.o = "closest" /\ lastop.t % 2 = 1 /\ Len(tb[0].nodes) = 1 /\ Len(lastret) >= 3)
 =============================================================================
